@@ -420,6 +420,34 @@ inline unsigned drop_default_bp_index(Node& root, vf::Chooser& c) {
   return n;
 }
 
+// Repeats address-event-count items: a copy of an item with the same type / code / transport flags / address and a different
+// count is added to the same array, as a producer that flushes its counters more than once per block writes them (RFC 8618 does
+// not forbid it).  Returns the number of items added.
+inline unsigned split_aec_items(Node& root, vf::Chooser& c) {
+  unsigned n = 0;
+  if (root.major != ARR || root.kids.size() != 3 || root.kids[2].major != ARR) return 0;
+  for (auto& blk : root.kids[2].kids) {
+    if (blk.major != MAP) continue;
+    for (size_t i = 0; i + 1 < blk.kids.size(); i += 2) {
+      if (!(blk.kids[i].is_uint() && blk.kids[i].arg == 4 && blk.kids[i + 1].major == ARR)) continue;
+      Node& arr = blk.kids[i + 1];
+      size_t orig = arr.kids.size();
+      for (size_t k = 0; k < orig; k++) {
+        if (arr.kids[k].major != MAP || !c.coin()) continue;
+        Node second = arr.kids[k];
+        bool changed = false;
+        for (size_t j = 0; j + 1 < second.kids.size(); j += 2)
+          if (second.kids[j].is_uint() && second.kids[j].arg == 4 && second.kids[j + 1].is_uint() && second.kids[j + 1].arg < (1ull << 62)) { second.kids[j + 1].arg += 1 + c.range(0, 5); changed = true; }
+        if (!changed) continue;
+        arr.kids.push_back(second);
+        n++;
+      }
+      arr.arg = arr.kids.size();
+    }
+  }
+  return n;
+}
+
 // ---- pretty printer (diagnostic-notation-like, truncated) ---------------------------------
 inline void diag(const Node& n, std::string& o, size_t limit = 600) {
   if (o.size() > limit) return;
